@@ -21,13 +21,19 @@ def has_quant(t):
     i = t.get_id()
     r = _hq_memo.get(i)
     if r is not None:
-        return r
+        return r[1]
     if z3.is_quantifier(t):
         r = True
     else:
         r = any(has_quant(c) for c in t.children())
-    _hq_memo[i] = r
+    # the term itself is kept in the memo: z3 recycles the ids of freed terms, a bare id could later name another term
+    _hq_memo[i] = (t, r)
     return r
+
+
+def clear_memo():
+    """Called at the start of every function-case / obligation: bounds the memory the memo pins."""
+    _hq_memo.clear()
 
 
 class Ctx:
@@ -220,6 +226,10 @@ class ExecBase:
     def ev_Name(self, e, st, ctx, k):
         n = e.id
         if n in st.store:
+            ub = getattr(st, "unbound_when", {}).get(n)
+            if ub is not None:
+                # bound on some of the joined paths only: reading it on the others is Python's UnboundLocalError
+                return self.branch(st, ub, lambda s: self.raise_(s, ctx, "UnboundLocalError", e.lineno), lambda s: k(s, s.store[n]))
             return k(st, st.store[n])
         v = self.global_name(n, st, ctx)
         if v is None:
